@@ -141,6 +141,10 @@ func (g *GCM) ctr(j0 [16]byte, in []byte) []byte {
 	return out
 }
 
+// CTR applies the counter-mode keystream that starts at inc32(j0) (exported for monitors that need
+// "what a decrypt-before-verify implementation would have written").
+func (g *GCM) CTR(j0 [16]byte, in []byte) []byte { return g.ctr(j0, in) }
+
 func (g *GCM) tag(j0 [16]byte, aad, ct []byte, tagSize int) []byte {
 	y := g.ghash(FE{}, aad)
 	y = g.ghash(y, ct)
